@@ -38,6 +38,7 @@ LEVEL_TEXT = (
 LEVEL_NOTE = "Trusted: the scalar interval rule and closed-form survival (only used to decide which stock-driven cases are well conditioned). Real-valued drivers outside the alphabet are not covered."
 
 TOL = 1e-10
+RECOMPUTE_DRIVERS = ("mixed", "hump", "pos")  # these cases run on a stock that was computed before with other parameters and driver
 QUADS_Q = [("start", 1), ("middle", 1), ("end", 1), ("middle", 4)]
 EXTRAS = ([], [("p", 2)], [("p", 2), ("q", 2)])
 SHAPES = {0: [("scalar", "scalar"), ("t", "scalar")], 1: [("scalar", "scalar"), ("pt", "p")], 2: [("scalar", "scalar"), ("qp", "tq")]}
@@ -54,10 +55,10 @@ def units(tier, seed):
 
 def drivers_for(kind, n, tier):
     if kind == "inflow":
-        return [f"imp:{t}:0" for t in range(n)] + ["pos", "mixed", "mid0"]
+        return [f"imp:{t}:0" for t in range(n)] + ["pos", "mixed", "mid0", "pos@tiny", "mixed@huge"]
     if kind == "simple":
         return ["pos", "mixed"]
-    return ["from-inflow", "inc", "dec", "hump", "mid0", "tail0"] + ([f"imp:{t}:0" for t in range(n)] if tier == "thorough" else ["imp:0:0", f"imp:{n-2}:0"])
+    return ["from-inflow", "inc", "dec", "hump", "mid0", "tail0", "hump@tiny", "dec@huge"] + ([f"imp:{t}:0" for t in range(n)] if tier == "thorough" else ["imp:0:0", f"imp:{n-2}:0"])
 
 
 def shapes_dict(lt, pair):
@@ -113,7 +114,7 @@ def run_case(kind, grid, li, quad, extra, pair, drv, probe):
             d = r0["stock"]
         else:
             d = dsm_impl.driver_series(drv, n, extra)
-        return dsm_impl.run_stock(kind, grid, lt, quad, extra, shapes, d)
+        return dsm_impl.run_stock(kind, grid, lt, quad, extra, shapes, d, recompute=(drv in RECOMPUTE_DRIVERS))
 
     st, res = attempt(compute)
     if st == "raised":
